@@ -381,8 +381,86 @@ def r14g(run):
     run.floor("R14g", "json.loads calls in the converters", total, 2)
 
 
+def _fold_str(e) -> Optional[str]:
+    if isinstance(e, ast.Constant) and isinstance(e.value, str):
+        return e.value
+    if isinstance(e, ast.JoinedStr):
+        return None
+    if isinstance(e, ast.BinOp) and isinstance(e.op, ast.Add):
+        a, b = _fold_str(e.left), _fold_str(e.right)
+        return a + b if a is not None and b is not None else None
+    return None
+
+
+def _regex_literals(pattern: str) -> str:
+    """upper-case designator letters a regex requires / allows, in order (through groups and optional parts)"""
+    import re._parser as sre   # the regex *parser* only: the pattern is data, nothing is matched
+    out = []
+
+    def walk(items):
+        for op, arg in items:
+            name = str(op)
+            if name == "LITERAL":
+                ch = chr(arg)
+                if ch.isalpha() and ch.isupper():
+                    out.append(ch)
+            elif name == "SUBPATTERN":
+                walk(arg[3])
+            elif name in ("MAX_REPEAT", "MIN_REPEAT", "POSSESSIVE_REPEAT"):
+                walk(arg[2])
+            elif name == "BRANCH":
+                for alt in arg[1]:
+                    walk(alt)
+            elif name in ("ASSERT", "ASSERT_NOT"):
+                pass
+    walk(sre.parse(pattern))
+    return "".join(out)
+
+
+def r14h(run):
+    """the designators the duration encoder writes, in its order, are the ones the ISO duration regex reads"""
+    g = run.repo.func(ENC, "duration_iso_string")
+    fmt = None
+    for c in walk_shallow(g.node):
+        cand = None
+        if isinstance(c, ast.Call) and isinstance(c.func, ast.Attribute) and c.func.attr == "format":
+            cand = _fold_str(c.func.value)
+        if isinstance(c, ast.JoinedStr):
+            cand = "".join(v.value for v in c.values if isinstance(v, ast.Constant))
+        if cand and "P" in cand:
+            fmt = cand
+    if not fmt or "P" not in fmt:
+        raise AnalysisError("duration_iso_string: format template not found")
+    enc = "".join(ch for ch in fmt if ch.isalpha() and ch.isupper())
+    T = run.repo.cls(TR, "TypeTransformer")
+    regs = T.assigns.get("DURATION_REGS")
+    pats = []
+    if isinstance(regs, (ast.List, ast.Tuple)):
+        for e in regs.elts:
+            if isinstance(e, ast.Call) and e.args:
+                p_ = _fold_str(e.args[0])
+                if p_ is None and isinstance(e.args[0], ast.Constant):
+                    p_ = e.args[0].value
+                if p_:
+                    pats.append(p_)
+    iso = [p_ for p_ in pats if "P" in _regex_literals(p_)]
+    run.floor("R14h", "ISO duration patterns in DURATION_REGS", len(iso), 1)
+    ok = any(_regex_literals(p_) == enc for p_ in iso)
+    run.check("R14h", g, f"the encoder's designators `{enc}` are read back in the same order", ok,
+              construct="duration designators differ between encoder and converter",
+              message=f"duration_iso_string writes the designators `{enc}`; the ISO pattern(s) of DURATION_REGS read "
+                      f"{[_regex_literals(p_) for p_ in iso]}",
+              necessity="a designator the pattern does not know (or another order) makes every encoded timedelta fail "
+                        "to parse back (or parse to another value)")
+    signed = any("(?P<sign>" in p_ and ("[-+]" in p_ or "[+-]" in p_) for p_ in iso)
+    emits_minus = any(isinstance(x, ast.Constant) and x.value == "-" for x in ast.walk(g.node))
+    run.check("R14h", g, "the leading '-' the encoder writes is a named sign group of the pattern", signed or not emits_minus,
+              construct="duration sign not readable", message="duration_iso_string writes a leading '-' but the ISO "
+              "pattern has no sign group accepting it", necessity="negative durations do not parse back")
+
+
 def check(run):
-    run.rules_run += ["R14a", "R14b", "R14c", "R14d", "R14e", "R14f", "R14g"]
+    run.rules_run += ["R14a", "R14b", "R14c", "R14d", "R14e", "R14f", "R14g", "R14h"]
     run.explain("Static agreement between the encoder table (utils/encode.py) and the converter table "
                 "(utils/transform.py): coverage of the C14 domain on both sides, JSON-native and total encoders, sign "
                 "symmetry of the UTC-offset gate, the duration sign applied to the whole value, the UTC marker "
@@ -395,3 +473,4 @@ def check(run):
     r14e(run)
     r14f(run)
     r14g(run)
+    r14h(run)
